@@ -7,9 +7,9 @@ from . import alphabets as A
 from . import impl
 from .acc import Acc
 
-FULL = A.ASCII + A.UNI + A.SURR + A.ESC
+FULL = A.ASCII + A.LATIN1_HIGH + A.UNI + A.SURR + A.ESC
 CLSX = A.CLS + A.UNI + A.SURR + A.ESC
-FULL_NS = A.ASCII + A.UNI + A.ESC
+FULL_NS = A.ASCII + A.LATIN1_HIGH + A.UNI + A.ESC
 CLSX_NS = A.CLS + A.UNI + A.ESC
 CORE = A.CORE + ["\ud800"]
 
